@@ -50,3 +50,6 @@ META = {
                "vs exact-rational double-sum oracle, enumerated structure "
                "grid + random cases",
 }
+
+# EXTENSION families added after the seeded-change rounds
+META["rule"] += (" Added after the seeded-change rounds: " "'reuse' family: the same user-owned window object / callable / stft partial object serves several calls in a row" ".")
